@@ -47,6 +47,7 @@ type spec struct {
 	kind   string   // kind of the wrapped container (Classify.ro_table key), "" if there is no twin
 	mk     func(n int) interface{}
 	mkS    func(n int) interface{} // instance for the long concurrent mixes, if it differs from mk
+	mkDoc  func(n int) interface{} // instance whose serialisation is used as a valid document, if it differs from mk
 	mkU    func(n int) interface{}
 	sorted bool // observations must be sorted (hash iteration order)
 	dump   func(x interface{}) []int64
@@ -312,17 +313,28 @@ func registry() []*spec {
 	// ---- bcache, bobjectstorage. In the long concurrent mix the sweeper goroutine runs every 300us next to the
 	// callers; scenario instances have no sweeper (bcache never stops it: thousands of short-lived instances would
 	// leave thousands of tickers behind).
-	mkCache := func(sweep time.Duration) func(n int) interface{} {
+	// Instances hold EXPIRED-BUT-STILL-STORED entries under the even keys (stored with a 1ns TTL; with the sweeper off
+	// they stay in the table until a Get finds them) next to live ones under the odd keys: per-call atomicity of the entry
+	// points must also hold on such keys. Documents for Load come from an all-live instance (mkDoc). sorted: exported
+	// documents carry wall-clock deadlines, so only their length is an observable.
+	mkCache := func(sweep time.Duration, expired bool) func(n int) interface{} {
 		return func(n int) interface{} {
 			c := bcache.New[int, int](icmp(), bcache.SetCapture[int, int](func(int, int) {}), bcache.SetInternal[int, int](sweep))
 			for _, k := range seq(n) {
-				c.SetNoExpire(k%cacheKeys, k*10)
+				if expired && k%2 == 0 {
+					c.Set(k%cacheKeys, k*10, time.Nanosecond)
+				} else {
+					c.SetNoExpire(k%cacheKeys, k*10)
+				}
+			}
+			if expired && n >= 2 {
+				time.Sleep(2 * time.Microsecond) // the 1ns deadlines are now certainly in the past
 			}
 			return c
 		}
 	}
-	add(&spec{name: "bcache.BCache", tnames: []string{"bcache.BCache", "bcache.bCache"}, dump: dumpCache,
-		mk: mkCache(0), mkS: mkCache(300 * time.Microsecond)})
+	add(&spec{name: "bcache.BCache", tnames: []string{"bcache.BCache", "bcache.bCache"}, dump: dumpCache, sorted: true,
+		mk: mkCache(0, true), mkS: mkCache(300*time.Microsecond, true), mkDoc: mkCache(0, false)})
 	add(&spec{name: "bobjectstorage.pkg", dump: dumpObj,
 		mk: func(n int) interface{} {
 			o := &objFacade{prefix: fmt.Sprintf("ns%d", atomic.AddInt64(&objSeq, 1))}
